@@ -16,6 +16,12 @@ Oracles
             for the filter's gains, the distance between the two estimates
             (rotation angle for MARG variants, angle between predicted gravity
             directions for IMU variants) is below the filter's tolerance.
+  carry-on  "skips its correction": through an accelerometer / magnetometer
+            dropout of >= 5 samples with a valid gyroscope, a filter that
+            refused no sample moves at least half as far as the dead reckoning
+            of the gyroscope samples it was given (when that is >= 0.05 rad and
+            the dropout-free twin follows it too); EKF is exempt (it returns the
+            prior, the mechanism the property names).
 """
 import copy
 import json
@@ -62,6 +68,9 @@ DEFAULT_TABLE = [
     ('aqua_imu', {}, 2000, 1e-3),
     ('aqua_marg', {}, 2000, 1e-3),
 ]
+# EKF answers a null accelerometer sample by returning the a-priori quaternion it was given (the mechanism the property
+# itself names: "a_norm == 0 returns prior"): it stands still by design and is not judged by the carry-on oracle
+FREEZE_EXEMPT = {'ekf_imu', 'ekf_marg'}
 RELATIVE = 0.5       # a recovering filter has shed at least half of the peak lag by the end of the tail, or is inside its tolerance
 SENSOR_SUBSETS = [['acc'], ['mag'], ['gyr'], ['acc', 'mag'], ['acc', 'gyr'], ['mag', 'gyr'], ['acc', 'mag', 'gyr']]
 
@@ -367,6 +376,35 @@ class Check:
                         viol.append(v(CM.defect_class(d), k, f'tick {k} ({k - start} after the first zeroed sample): output {d}: {np.array2string(np.asarray(o), precision=6)}'))
                         usable = False
                         break
+        # "skips its correction": a filter that accepts a zeroed accelerometer / magnetometer sample (no refusal) while the
+        # gyroscope is valid carries on with the gyroscope; it does not stand still while the body turns
+        if usable and not trivial and kind.name not in FREEZE_EXEMPT and isinstance(out_t, list) and len(out_t) == hist.n and len(out_f) == hist.n \
+                and all(f['kind'] == 'dropout' for f in scn['world']['faults']) and 'g' in kind.sensors:
+            drops = scn['world']['faults']
+            for f in drops:
+                sens = f['sensor'] if isinstance(f['sensor'], list) else [f['sensor']]
+                s0, e0 = f['start'], min(hist.n, f['start'] + f['len']) - 1
+                if 'gyr' in sens or not any(used[x] for x in sens) or s0 < 2 or e0 - s0 < 4:
+                    continue
+                if any(g is not f and g['start'] <= e0 and g['start'] + g['len'] > s0 - 1 for g in drops):
+                    continue            # another dropout overlaps: not attributable
+                win = out_f[s0 - 1:e0 + 1]
+                if not all(isinstance(o, np.ndarray) for o in win):
+                    continue            # refused somewhere in the window: the application holds its attitude, by contract
+                # reference model: dead reckoning of the gyroscope samples the filter was given, from its own estimate
+                qs = qm.qconj(out_f[s0 - 1]) if kind.conj else np.array(out_f[s0 - 1], dtype=float)
+                qp = qs.copy()
+                for k in range(s0, e0 + 1):
+                    qp = qm.qnorm(qm.qmul(qp, qm.qexp(np.asarray(hist.gyr[k], dtype=float) * hist.dt)))
+                mt = self._dist(kind, a_ref, qm.qconj(qp) if kind.conj else qp, out_f[s0 - 1])
+                mf = self._dist(kind, a_ref, out_f[e0], out_f[s0 - 1])
+                if not self._dist(kind, a_ref, out_t[e0], out_t[s0 - 1]) >= 0.5 * mt:
+                    continue            # the dropout-free twin does not follow its gyroscope either: not attributable
+                stats['carry_on_checked'] = stats.get('carry_on_checked', 0) + 1
+                log.add('carry-on', round(mt, 9), round(mf, 9))
+                if mt >= 0.05 and mf < 0.5 * mt:
+                    viol.append(v('frozen', e0, f'during the {"+".join(sens)} dropout of ticks {s0}..{e0} (gyroscope valid, no sample refused) the estimate moved {mf:.4g} rad while the gyroscope samples it was given amount to {mt:.4g} rad'))
+                    break
         # hidden mode switches: at the end of the history the filter object must carry the same scalar configuration
         # (gains, periods, flags) as the object that processed the history without dropouts
         if cfg_f is not None and cfg_t is not None and not trivial and not isinstance(out_f, (K.Refusal, K.Crash)) and crash_at is None:
